@@ -529,10 +529,14 @@ class Store(object):
             self.probe("writev-test-fails")
             if got != "refused":
                 self.bad("C24", "testv", "writev whose test vector does not match current data was %s" % got)
+                # C23: "test vectors compare against the current data (a missing share reads as empty)"
+                self.bad("C23", "testv-vs-current-data", "a test-and-write whose test vector does not equal the share's current "
+                         "data (missing shares read as empty) was %s: %r" % (got, _short(tw_real)))
         else:
             self.probe("writev-applied")
             if got != "applied":
                 self.bad("C24", "testv-spurious", "writev whose test vectors match the current data was %s" % got)
+                self.bad("C23", "testv-vs-current-data", "a test-and-write whose test vectors equal the current data was %s" % got)
         if got != "applied":
             after = self.snapshot_files()
             if after != before:
